@@ -244,8 +244,16 @@ def materialise(base, sc):
     for fn, m in INPUT_MTIMES.items():
         p = os.path.join(base, fn)
         os.makedirs(os.path.dirname(p), exist_ok=True)
-        with open(p, "w") as f:
-            f.write("input " + fn + "\n")
+        # annotation inputs hold one real GTF line (gzip-compressed under a `.gz` name): since /repo c5c49d6 gtf2db sniffs the
+        # dialect of the file before the (stand-in) conversion
+        text = ('chrI\tharness\texon\t1\t10\t.\t+\t.\tgene_id "%s"; transcript_id "%s.t";\n' % (fn, fn)) if ".gtf" in fn else "input " + fn + "\n"
+        if fn.endswith(".gz"):
+            import gzip
+            with gzip.open(p, "wt") as f:
+                f.write(text)
+        else:
+            with open(p, "w") as f:
+                f.write(text)
         os.utime(p, (m, m))
     home = os.path.join(base, "home")
     os.makedirs(home, exist_ok=True)
